@@ -47,6 +47,10 @@ CHECKS = {
             "§6 C12",
             "universally quantified gate theorems + exhaustive gate enumeration (fault enumeration over the finite flip sets) + correspondence",
             "Gates of the Hyper-V, envelope/keystore and key-safe parsers are enumerated against the real code (implementation vs expectation); their Lean models belong to C15-C17. Only raised-vs-returned is compared. VMDK(fh) deliberately treats a file without sparse magic as a flat extent (not a gate)."),
+    "C17": ("Lean 4 theorems over a model of hyperv.py (header pair, replay log, object-table walk with the once-per-offset rule, key-table registration ordered by sequence number, entry framing, free entries, key / typed value decoding, file-object pointers, parent linking through the active table of an index, as_dict): value_roundtrip (all six leaf types in range, any slack; unsigned_is_not_signed), file_object_value, entry_walk (+ zero-terminated, free_entries_ignored; induction over arbitrary entry lists), active_header_max_seq, active_table_max_seq / active_table_exists (any registration order), tree_decode_partial (a stored table parses to all its (offset, parent, key, typed value) records), object_walk_terminates / entry_loop_terminates (fuel size+1 suffices: pigeonhole on distinct table offsets); struct layouts, signatures, enums, masks and struct formats re-extracted from c_hyperv / hyperv.py each run; independent file writer; as_dict() and a typed walk of the real code vs model vs construction truth, plus hostile edits model-vs-implementation",
+            "§6 C17",
+            "unbounded proofs (induction over entry lists, registration orders, object-table walk) + extraction + differential correspondence",
+            "PARTIAL: the assembly of the decoded records into the nested tree for arbitrary multi-table layouts (tree_decode) is not a theorem; it is covered by the executable model (kernel-evaluated example with competing tables, free entries, file objects) and the correspondence. Modelled, not verified: cstruct, struct.unpack, list.sort stability, strict utf-8 / utf-16-le decoding, dict semantics. Leaf values directly under the root (as_dict raises TypeError) and Python's recursion limit are outside the property."),
     "C20": ("Lean 4 theorems visor_member_extracts_stored_bytes (every listed visor member with a recorded data offset extracts to file[offset, offset+size), offset = the little-endian word at header+496, for every file content / member count / order / placement, GNU long names included), visor_next_header_adjacent, plain_tar_unchanged (visor-aware listing = standard listing on archives without visor data offsets; induction over the iteration), vmtar_listing_terminates (fuel size/512+2 always suffices) over a model of VisorTarInfo.frombuf/_proc_member and the inherited CPython tarfile iteration (nts, nti incl. base-256, checksums, frombuf, _proc_builtin, _proc_gnulong, next, extractfile); slice positions/magic/struct formats in VisorTarInfo.frombuf re-extracted from the source on every run; independent archive writer; real code vs model vs construction truth (and vs tarfile.open for plain archives)",
             "§6 C20",
             "unbounded proof (induction over the member iteration) + extraction + differential correspondence",
